@@ -755,6 +755,40 @@ mod test {
         assert!(finder.found_date());
     }
 
+    /// A reader that returns the given chunks, one per `read` call.
+    struct ChunkedReader(std::collections::VecDeque<&'static [u8]>);
+
+    impl std::io::Read for ChunkedReader {
+        fn read(&mut self, buf: &mut [u8]) -> std::io::Result<usize> {
+            match self.0.pop_front() {
+                Some(chunk) => {
+                    buf[..chunk.len()].copy_from_slice(chunk);
+                    Ok(chunk.len())
+                }
+                None => Ok(0),
+            }
+        }
+    }
+
+    #[test]
+    fn test_find_time_macros_small_reads() {
+        // The outcome must not depend on how the file is split into reads.
+        let reads = |chunks: &[&'static [u8]]| {
+            let reader = ChunkedReader(chunks.iter().copied().collect());
+            Digest::reader_sync_time_macros(reader).unwrap().1
+        };
+        // A pattern spread over a full read and two small ones.
+        let finder = reads(&[b"0123456789abcdef__TI", b"M", b"E__"]);
+        assert!(finder.found_time());
+        // Not a pattern: the small reads are not adjacent to the end of the full read.
+        let finder = reads(&[b"0123456789abcdef__TI", b"x", b"ME__"]);
+        assert!(!finder.found_time_macros());
+        let finder = reads(&[b"0123456789abcdef__DA", b"x", b"TE__0123456789abcdef"]);
+        assert!(!finder.found_time_macros());
+        let finder = reads(&[b"0123456789abcdef__DA", b"T", b"E__0123456789abcdef"]);
+        assert!(finder.found_date());
+    }
+
     #[test]
     fn test_find_time_macros_ghost_pattern() {
         // Check the (unlikely) case of a pattern being spread between the
